@@ -306,6 +306,89 @@ def judge_gboost(c_exe, lines):
     return None
 
 
+# ---- far-tail statistics (statistical test evidence, not proof) ---------------------------------------------------------------
+
+def poisson_band(mu, alpha=1e-9):
+    """[lo, hi] with P(X < lo) <= alpha and P(X > hi) <= alpha for X ~ Poisson(mu) (the counts are binomial with a tiny p)"""
+    import math
+    if mu <= 0:
+        return 0, 0
+    kmax = int(mu + 12 * math.sqrt(mu) + 40)
+    logp = [-mu + k * math.log(mu) - math.lgamma(k + 1) for k in range(kmax + 1)]
+    pm = [math.exp(v) for v in logp]
+    acc, lo = 0.0, 0
+    for k in range(kmax + 1):
+        if acc + pm[k] > alpha:
+            lo = k
+            break
+        acc += pm[k]
+    acc, hi = 0.0, kmax
+    for k in range(kmax, -1, -1):
+        if acc + pm[k] > alpha:
+            hi = k
+            break
+        acc += pm[k]
+    return lo, hi
+
+
+def tail_spec(name, tabs):
+    """(r, thresholds, P(|X| > t), mean and variance of the excess |X| - r given |X| > r)"""
+    import math
+    if name == "std_normal":
+        r = tabs["nor_zig_x_tail_start"]
+        ts = [r, 4.0, 4.5, 5.0]
+        q = lambda t: math.erfc(t / math.sqrt(2.0))                     # two-sided
+        lam = math.exp(-0.5 * r * r) / math.sqrt(2.0 * math.pi) / (0.5 * math.erfc(r / math.sqrt(2.0)))
+        return r, ts, q, lam - r, 1.0 + r * lam - lam * lam
+    r = tabs["exp_zig_x_tail_start"]
+    ts = [r, r + 1.0, r + 2.0, r + 4.0, 14.0]
+    return r, ts, (lambda t: math.exp(-t)), 1.0, 1.0
+
+
+def tail_lines(name, tabs, n_each, jobs, seed0):
+    r, ts, _q, _m, _v = tail_spec(name, tabs)
+    return ["tail %s %d %d %s" % (name, n_each, seed0 + 7919 * j, " ".join(repr(t) for t in ts)) for j in range(jobs)]
+
+
+def judge_tail(c_exe, name, tabs, lines):
+    """-> (messages, summary).  The far tail of the ziggurat samplers is reached through their slow paths only (about 3e-4 of
+    the normal draws, 5e-4 of the exponential ones): counts beyond the tail start and further out against the exact
+    probabilities (two-sided 1e-9 Poisson band, about 6 sigma) and the mean excess beyond the tail start (6 standard errors)."""
+    import math
+    r, ts, q, m_exc, v_exc = tail_spec(name, tabs)
+    outs = vlib.parallel_map(lambda l: vlib.run_driver(c_exe, l + "\n", args=["corr"], timeout=TIMEOUT[TIER[0]]), lines)
+    n_tot, s1, counts = 0, 0.0, [0] * len(ts)
+    for l, (rc, out, err) in zip(lines, outs):
+        mm = re.search(r"n=(\d+) sum=(\S+) sumsq=(\S+) counts (.*)", out)
+        if rc != 0 or not mm:
+            return ["`%s`: driver exit code %d: %s" % (l, rc, (err or out).strip()[-200:])], {}
+        n_tot += int(mm.group(1))
+        s1 += float(mm.group(2))
+        for j, c in enumerate(mm.group(4).split()):
+            counts[j] += int(c)
+    msgs = []
+    summ = {"draws": n_tot, "thresholds": ts, "counts": counts, "expected": [round(n_tot * q(t), 1) for t in ts]}
+    for t, c in zip(ts, counts):
+        mu = n_tot * q(t)
+        lo, hi = poisson_band(mu)
+        if not (lo <= c <= hi):
+            msgs.append("%s: %d of %d draws beyond %.6g, expected %.1f (1e-9 band %d..%d)" % (name, c, n_tot, t, mu, lo, hi))
+    if counts[0] > 0:
+        me = s1 / counts[0]
+        se = math.sqrt(v_exc / counts[0])
+        summ["mean_excess"], summ["mean_excess_expected"] = round(me, 5), round(m_exc, 5)
+        if abs(me - m_exc) > 6.0 * se:
+            msgs.append("%s: mean excess beyond the tail start %.6g is %.4f, expected %.4f +/- %.4f (%.1f standard errors)" % (
+                name, r, me, m_exc, se, (me - m_exc) / se))
+    return msgs, summ
+
+
+def tail_tables(impl):
+    te = gen_rngdist.parse_inc(os.path.join(impl["dir"], "cmi_random_exp_zig.inc"))
+    tn = gen_rngdist.parse_inc(os.path.join(impl["dir"], "cmi_random_nor_zig.inc"))
+    return {"nor_zig_x_tail_start": tn["nor_zig_x_tail_start"][2][0], "exp_zig_x_tail_start": te["exp_zig_x_tail_start"][2][0]}
+
+
 # ---- the generated tables against the curve they are meant to lie on (deterministic numerical check, not proof) -------------
 
 def check_tables(impl):
@@ -499,6 +582,23 @@ def run(chk):
                 if msg:
                     failures.append(("corr", "(ASan/UBSan build) " + msg, "#! kind=corr exact=%d\n# ASan/UBSan build: %s\n%s\n" % (1 if exact else 0, msg, "\n".join(lines))))
 
+    # ---- far tails of the ziggurat samplers (test evidence; the slow paths are where a wrong constant hides) -----------
+    try:
+        tabs = tail_tables(impl)
+        far = {}
+        for ti, name in enumerate(("std_normal", "std_exponential")):
+            tl = tail_lines(name, tabs, 15000000 if quick else 60000000, 4 if quick else 16, seed_for(chk, ti, 404))
+            msgs, summ = judge_tail(c_exe, name, tabs, tl)
+            evals += len(tl)
+            dist["far-tail:" + name] += len(tl)
+            sigs.add(hashlib.sha256("\n".join(tl).encode()).hexdigest()[:16])
+            far[name] = summ
+            if msgs:
+                failures.append(("stat", "`tail %s`: %s" % (name, "; ".join(msgs)), "#! kind=tail\n# %s\n%s\n" % ("; ".join(msgs), "\n".join(tl))))
+        chk.cov["far_tail"] = dict(far, label="statistical test evidence, not proof")
+    except (OSError, KeyError) as ex:
+        failures.append(("tables", "the generated table files cannot be read for the far-tail test: %s" % ex, "#! kind=tables\n"))
+
     # ---- statistical tier (test evidence) ---------------------------------------------------------------------------
     n_stat = 200000 if quick else 3000000
     jobs = [stat_job(name, params, sup, n_stat, seed_for(chk, i, 202)) for i, (name, params, sup) in enumerate(grid)]
@@ -605,6 +705,15 @@ def replay(chk, path):
             chk.violation("replay: " + msg, text, False)
         else:
             chk.log("replay: library and regenerated guard agree on %d cases" % len(lines))
+        return
+    if kind == "tail":
+        tabs = tail_tables(impl)
+        name = lines[0].split()[1]
+        msgs, summ = judge_tail(c_exe, name, tabs, lines)
+        if msgs:
+            chk.violation("replay: " + "; ".join(msgs), text, True)
+        else:
+            chk.log("replay: the far tail of %s agrees with the exact probabilities: %s" % (name, summ))
         return
     if kind == "tables":
         msgs = check_tables(impl)
